@@ -114,3 +114,44 @@ Theorem c19_f8_alloc_dealloc_stale_entry :
     snd (fst (m_op c OpSweep o1)) = ORaise ValueError.
 Proof. exact HeaderProofs.alloc_dealloc_stale_entry. Qed.
 Print Assumptions c19_f8_alloc_dealloc_stale_entry.
+
+(* size(type) bytes of every object are usable: in each kind of storage the s bytes behind the header lie
+   inside the block and end before the next header.  (The shapes of the C size expressions these functions
+   mirror are confirmed by the generator: c19_layout_shapes; the bytes themselves are exercised by the
+   harness, under AddressSanitizer in the thorough tier.) *)
+Theorem c19_layout_shapes : hdr_layout_ok = true.
+Proof. exact HeaderProofs.layout_ok. Qed.
+Print Assumptions c19_layout_shapes.
+
+Theorem c19_array_elements_fit :
+  forall H w s n i, 0 < w -> i < n ->
+    array_head H w s i + H = array_body H w s i /\
+    array_body H w s i + s <= array_head H w s (i + 1) /\
+    array_head H w s (i + 1) <= array_block H w s n /\
+    (forall j, i < j -> array_body H w s i + s <= array_head H w s j).
+Proof. exact HeaderProofs.array_fits. Qed.
+Print Assumptions c19_array_elements_fit.
+
+Theorem c19_table_entries_fit :
+  forall H w ks vs n i, 0 < w -> i < n ->
+    table_khead H w ks vs i + H = table_kbody H w ks vs i /\
+    table_kbody H w ks vs i + ks <= table_vhead H w ks vs i /\
+    table_vhead H w ks vs i + H = table_vbody H w ks vs i /\
+    table_vbody H w ks vs i + vs <= table_step H w ks vs * (i + 1) /\
+    table_step H w ks vs * (i + 1) <= table_block H w ks vs n.
+Proof. exact HeaderProofs.table_fits. Qed.
+Print Assumptions c19_table_entries_fit.
+
+Theorem c19_list_tree_plain_fit :
+  forall H w s ks vs,
+    (plain_body H + s <= plain_block H s) /\
+    (list_head w + H = list_body H w /\ list_body H w + s <= list_block H w s) /\
+    (tree_khead w + H = tree_kbody H w /\ tree_kbody H w + ks <= tree_vhead H w ks /\
+     tree_vhead H w ks + H = tree_vbody H w ks /\ tree_vbody H w ks + vs <= tree_block H w ks vs).
+Proof. exact (fun H w s ks vs => conj (HeaderProofs.plain_fits H s) (conj (HeaderProofs.list_fits H w s) (HeaderProofs.tree_fits H w ks vs))). Qed.
+Print Assumptions c19_list_tree_plain_fit.
+
+Example c19_layout_nonvacuous :
+  (* a 12-byte element type in an Array of 3 slots on a 64-bit debug build: H = 24, w = 8 *)
+  array_step 24 8 12 = 40 /\ array_body 24 8 12 1 = 64 /\ array_block 24 8 12 3 = 120.
+Proof. repeat split. Qed.
